@@ -57,6 +57,29 @@ Proof.
 Qed.
 Print Assumptions C04_pratt_full.
 
+
+(** * The same statement for the PINNED published table: the dumped table is order-isomorphic to
+    it ([C04_published_order]) and [Correct] only depends on the order of the powers. *)
+Lemma C04_entry_ok : forall f d lv extra, In (f, d, lv, extra) all_dialects ->
+  published_order f lv = true /\ (forall k, lvl d k = nthN lv k).
+Proof.
+  intros f d lv extra H. cbn [all_dialects In] in H.
+  repeat (destruct H as [H|H]; [inversion H; subst; split; [vm_compute; reflexivity|intro; reflexivity]|]).
+  destruct H.
+Qed.
+
+Theorem C04_pratt_published : forall f d lv extra ts t,
+  In (f, d, lv, extra) all_dialects ->
+  parse_expr d ts = Ok (t, []) -> ~ KnownClass_C04 d t -> Correct (pinned f) t ts.
+Proof.
+  intros f d lv extra ts t Hin Hp Hk.
+  destruct (C04_entry_ok f d lv extra Hin) as [Hpo Hl].
+  pose proof (C04_pratt f d lv extra ts t Hin Hp Hk) as Hc.
+  unfold Correct in *. apply (Correct_gen_iso published (pinned f) (lvl d)); [|exact Hc].
+  intros i j. rewrite !Hl. apply published_order_iso. exact Hpo.
+Qed.
+Print Assumptions C04_pratt_published.
+
 (** Refuted today (known finding is-distinct-from-operand): [a IS DISTINCT FROM b AND c]. *)
 Definition isdf_witness : list tok :=
   [TAtom false 1; TKw KIs; TKw KDistinct; TKw KFrom; TAtom false 2; TOp K_AND; TAtom false 3].
